@@ -32,6 +32,10 @@ type c09Case struct {
 	B      rawDoc   `json:"b,omitempty"`
 	D      rawDoc   `json:"d,omitempty"`
 	Defs   rawDoc   `json:"defs,omitempty"`
+	// ModelClosed: A comes from BlockSem.tla and the MODEL holds no fenced code or HTML block open
+	// after its last line; the side condition is then the model's, not the one read from the
+	// implementation's own state (a parser that fails to close a block must not excuse itself)
+	ModelClosed bool `json:"model_closed,omitempty"`
 }
 
 const c09Heading = "# zq\n"
@@ -59,7 +63,7 @@ func c09Record(md goldmark.Markdown, cs c09Case) (rec map[string]interface{}, de
 	lb := newLaw()
 	if cs.Kind == "concat" {
 		a, b := string(cs.A), string(cs.B)
-		if strings.ContainsAny(a+b, "[\r") || !closedAtEOF(md, a) {
+		if strings.ContainsAny(a+b, "[\r") || (!cs.ModelClosed && !closedAtEOF(md, a)) {
 			return nil, "", false
 		}
 		oa, e1 := convertWith(md, []byte(a))
@@ -225,13 +229,20 @@ func runC09(c *Ctx) {
 		n := 0
 		r := RunTLC(TLCOpts{Module: "BlockSem", Cfg: "gen.cfg", CfgText: bsCfg(b.alpha, b.lines, false, true), Workers: 8, Timeout: 60 * time.Minute, OnJSON: func(raw []byte) {
 			var d struct {
-				Src string `json:"src"`
+				Src  string   `json:"src"`
+				Open []string `json:"open"`
 			}
 			if json.Unmarshal(raw, &d) == nil && d.Src != "" {
 				n++
+				closed := !strings.Contains(d.Src, "\t") // (with tabs the recorded list-marker finding of C02 can change what is open)
+				for _, k := range d.Open {
+					if k == "fence" || k == "html" {
+						closed = false
+					}
+				}
 				for j, second := range []string{"a\n", "# a\n", "- x\n\n- y\n", "    c\n"} {
 					if (n+j)%2 == 0 || c.Thorough() {
-						add(c09Case{Kind: "concat", A: rawDoc(d.Src), B: rawDoc(second)}, (n+j+bi)%len(cfgs))
+						add(c09Case{Kind: "concat", A: rawDoc(d.Src), B: rawDoc(second), ModelClosed: closed}, (n+j+bi)%len(cfgs))
 					}
 				}
 			}
